@@ -462,16 +462,41 @@ theorem valueAt_ext {s s' : St} {db db' : DB} {g : GDir} (h : Files s db g)
   have hf1 : getFile (dirOf s' db').data p.fid = some f' := by rw [hfid]; exact hf'
   simp only [valueAt, hf1, hread, decodeValue_encodeRecord r (by omega) hk hv hbt]
 
+/-- **what must hold of the state in which a snapshot is taken**: the data files match a ghost
+    directory, every index entry is the position of a logged record with that key, and the index is
+    sorted.  Implied by the engine invariant `Inv` (no batch open, `SnapOK.of_inv`) and by the
+    in-batch invariant `BInv` (a batch is open, possibly after intermediate flushes,
+    `SnapOK.of_batch`). -/
+structure SnapOK (s : St) (db : DB) (g : GDir) : Prop where
+  files : Files s db g
+  prov : Prov db g
+  sorted : SortedKeys db.index
+
+theorem SnapOK.of_inv {s : St} {db : DB} {g : GDir} (h : Inv s db g) : SnapOK s db g :=
+  ⟨h.files, fun _ _ hm => h.index_from_log hm, h.sorted⟩
+
+theorem SnapOK.of_batch {s : St} {db : DB} {g : GDir} {b : BatchSt} {base : BSpec}
+    {issued : List (ByteArray × Option ByteArray)} {l0 flushed : List (Record × Pos)}
+    (h : BCore s db g b base issued l0 flushed) : SnapOK s db g :=
+  ⟨h.files, h.prov, h.cinv.sorted⟩
+
+/-- under `SnapOK` every indexed key has a value and it is the logged one -/
+theorem SnapOK.resolves {s : St} {db : DB} {g : GDir} (h : SnapOK s db g) {k : Key} {p : Pos}
+    (hm : (k, p) ∈ db.index) :
+    ∃ r, (r, p) ∈ logOf g ∧ Index.get db.index k = some p ∧ Engine.valueAt s db p = .val r.value ∧
+      absGet s db k = some r.value := by
+  have hget : Index.get db.index k = some p := Index.mem_get_of_sorted h.sorted hm
+  obtain ⟨r, hr, _, hv, ha⟩ := absGet_resolves h.files h.prov hget
+  exact ⟨r, hr, hget, hv, ha⟩
+
 /-- **stability of one snapshot item** along a `Step` -/
 theorem Step.valueAt {s s' : St} {db : DB} {g : GDir} (hst : Step s s') (hdb : s.db = some db)
-    (hi : Inv s db g) {k : Key} {p : Pos} (hm : (k, p) ∈ db.index) :
+    (hi : SnapOK s db g) {k : Key} {p : Pos} (hm : (k, p) ∈ db.index) :
     ∃ db' v, s'.db = some db' ∧ db'.dir = db.dir ∧ absGet s db k = some v ∧
       Engine.valueAt s db p = .val v ∧ Engine.valueAt s' db' p = .val v := by
   obtain ⟨db', hdb', hdir, _, hadv⟩ := hst db hdb
   obtain ⟨_, hext⟩ := hadv (Top_of_Files hi.files)
-  obtain ⟨r, hr, _⟩ := hi.index_from_log hm
-  have hget : Index.get db.index k = some p := Index.mem_get_of_sorted hi.sorted hm
-  refine ⟨db', r.value, hdb', hdir, ?_, valueAt_log hi.files hr, valueAt_ext hi.files hext hr⟩
-  simp only [absGet, hget, valueAt_log hi.files hr]
+  obtain ⟨r, hr, _, hv, ha⟩ := hi.resolves hm
+  exact ⟨db', r.value, hdb', hdir, ha, hv, valueAt_ext hi.files hext hr⟩
 
 end XixiKV.Engine.IterP
